@@ -12,6 +12,18 @@ fn line(rng: &mut Rng, hostile: bool) -> String {
         return benign_text(rng);
     }
     let mut s = rng.pick(LINE_STARTS).to_string();
+    if rng.chance(1, 10) {
+        // far end of "whatever characters": a long run that puts the next special character right
+        // at a length a generator might clip, pad or wrap at
+        let edge = *rng.pick(&[16usize, 32, 40, 64, 72, 80, 100, 120, 128, 200, 256, 512]);
+        let upto = (edge + 2).saturating_sub(rng.below(5)).saturating_sub(s.chars().count());
+        for k in 0..upto {
+            s.push(if k % 9 == 8 && rng.chance(1, 3) { *rng.pick(&['\'', '"', '\\', ' ']) } else { 'a' });
+        }
+        if rng.coin() {
+            s.push(*rng.pick(&['\'', '"', '\\', '$', '`', ']', ':']));
+        }
+    }
     for _ in 0..rng.range(0, 5) {
         let f = *rng.pick(HOSTILE_FRAGS);
         if f.contains('\n') || f.contains('\r') {
